@@ -521,6 +521,18 @@ def solve_piece(hyps_qf, hyps_full, goal, timeout_ms, cases=()):
     hyps_qf = list(hyps_qf) + nx
     hyps_full = list(hyps_full) + nx
     hq = hyps_qf + smt.pow2_axioms(hyps_qf + [goal])
+    if len(hq) > 120:
+        # goal-directed subsets first (sound: fewer hypotheses), growing the symbol closure
+        for rounds in (1,):
+            sub = smt.relevant(hq, goal, rounds)
+            if len(sub) >= 0.8 * len(hq):
+                break
+            v0, info0 = smt.check(sub, goal, 2500, want_model=False)
+            tsum += info0.get("time", 0)
+            if v0 == "unsat":
+                info0["time"] = tsum
+                info0["mode"] = f"qf-relevant-{rounds}"
+                return v0, info0
     v, info = smt.check(hq, goal, max(8000, timeout_ms // 2), want_model=False)
     tsum += info.get("time", 0)
     if v == "unsat":
